@@ -74,8 +74,8 @@ META = {
         "not_covered": COMMON_NOT + ["recursion under a context provider"],
     },
     "C16": {
-        "bounds": {"quick": "token trees: <= 2 outer tokens, each a leaf or a group of <= 2 leaves (depth 2)", "thorough": "same"},
-        "not_covered": ["depth 3..4", "gapped spans on nested inputs", "the inner failure's position in the outer error (TagErr count only)"],
+        "bounds": {"quick": "token trees: <= 2 outer tokens, each a leaf or a group of <= 2 leaves (depth 2); a group followed by <= 2 leaves with the error-routing grammar; chains of depth 3 and depth 4 (nested_in inside nested_in inside nested_in) with <= 1 / 2 / 2 tokens per level", "thorough": "same"},
+        "not_covered": ["more than one group per level at depth 3..4", "gapped spans on nested inputs", "the position of an INNER failure in the outer error"],
     },
     "C17": {
         "bounds": {"quick": "N=3; BitErr; labelled / as_context on a two-token parser in a choice and after an optional that left a pending error; map_err / map_err_with_state on failing and on succeeding parsers; nested labels (thorough)", "thorough": "adds nested labels"},
